@@ -14,8 +14,8 @@ PROPS["C06"] = {
     "title": "Three-valued connectives obey their truth tables",
     "models": lambda tier: [
         {"module": "MC_Tri",
-         "constants": {"MaxK": q(tier, 3, 5), "Dev": DEV_CURRENT, "EmitAlts": "FALSE"},
-         "invariants": ["EngInAdm", "LangIsAdm", "Lifted", "OrderFree", "LangOrderFree", "Emit"],
+         "constants": {"MaxK": q(tier, 3, 5), "Dev": DEV_CURRENT},
+         "invariants": ["EngInAdm", "LangIsAdm", "Lifted", "Emit"],
          "forms": ["and_chain", "or_chain", "map_group", "seq_group", "not1", "all_seq", "of_seq",
                    "all_map", "of_map", "klist", "kall", "kof", "klist_mix", "kall_mix", "kof_mix", "knot"],
          "workers": q(tier, 4, 8)},
@@ -33,6 +33,10 @@ PROPS["C02"] = {
     "rules": ["oracle", "tri_oracle", "tri_both", "load_outcome", "load_panic", "match_panic"],
     "chunk": 1500,
 }
+    "level": "todo",
+    "note": "todo",
+    "technique": "TLA+ language-layer semantics (TauLang) evaluated by TLC on traces recorded from the engine",
+}
 
 DEV_COND = '{}'
 PROPS["C05"] = {
@@ -46,6 +50,14 @@ PROPS["C05"] = {
     "gens": lambda tier: [],
     "rules": ["oracle", "load_outcome", "load_panic", "match_panic"],
     "chunk": 400,
+}
+
+PROPS["C01"] = {
+    "title": "Optimisation never changes a verdict",
+    "models": lambda tier: [],
+    "gens": lambda tier: [{"topic": "opt", "n": q(tier, 600, 12000)}],
+    "rules": ["den", "opt_panic", "match_panic"],
+    "chunk": 300,
 }
 
 PROPS["C03"] = {
@@ -62,6 +74,14 @@ PROPS["C03"] = {
     "chunk": 100,
 }
 
+PROPS["C12"] = {
+    "title": "Loading, optimising and matching are deterministic and pure",
+    "models": lambda tier: [],
+    "gens": lambda tier: [{"topic": "pure", "n": q(tier, 400, 8000)}],
+    "rules": ["den", "print_differs", "opt_panic", "match_panic"],
+    "chunk": 300,
+}
+
 PROPS["C13"] = {
     "title": "validate() agrees with matches() on the rule's own examples",
     "models": lambda tier: [],
@@ -70,12 +90,34 @@ PROPS["C13"] = {
     "chunk": 500,
 }
 
+PROPS["C14"] = {
+    "title": "Rule serialisation round-trips",
+    "models": lambda tier: [],
+    "gens": lambda tier: [{"topic": "ser", "n": q(tier, 600, 12000)}],
+    "rules": ["den", "ser_panic", "ser_error", "reload_fails", "reload_differs", "load_paths_differ", "load_panic"],
+    "chunk": 400,
+}
+
 PROPS["C11"] = {
     "title": "Verdict is independent of how the document is represented",
     "models": lambda tier: [],
     "gens": lambda tier: [{"topic": "repr", "n": q(tier, 600, 12000)}],
     "rules": ["den", "match_panic"],
     "chunk": 300,
+}
+
+PROPS["C04"] = {
+    "title": "Loading arbitrary text returns a rule or an error, never a panic",
+    "models": lambda tier: [
+        {"module": "MC_Tok", "constants": {"MaxLen": q(tier, 3, 4)},
+         "invariants": ["InRange", "AgreesWithScan"], "props": ["Progress", "Terminates"],
+         "no_cases": True, "workers": 8},
+        {"module": "MC_Ident", "constants": {"MaxLen": q(tier, 3, 4), "Dev": "{}", "IcBuild": "FALSE"},
+         "invariants": ["NoPanic", "WriteRead", "Emit"], "forms": ["ok", "err", "unk"], "workers": 8},
+    ],
+    "gens": lambda tier: [{"topic": "fuzz", "n": q(tier, 3000, 60000)}],
+    "rules": ["load_panic", "ident_panic"],
+    "chunk": 3000,
 }
 
 PROPS["C07"] = {
@@ -92,6 +134,19 @@ PROPS["C07"] = {
     "chunk": 1000,
 }
 
+PROPS["C09"] = {
+    "title": "Numeric comparisons and casts are order-correct and overflow-safe",
+    "models": lambda tier: [
+        {"module": "MC_Num", "constants": {},
+         "invariants": ["Trichotomy", "Unions", "NaNFalse", "EngSound", "Emit"],
+         "forms": ["key", "intkey", "fltkey", "strkey", "cond_int", "cond_int_rev", "cond_flt", "cond_flt_rev",
+                   "cond_int_fields", "cond_flt_fields", "cond_str_fields"], "workers": 8},
+    ],
+    "gens": lambda tier: [{"topic": "num", "n": q(tier, 500, 20000)}],
+    "rules": ["oracle", "tri_oracle", "tri_both", "match_panic", "load_outcome"],
+    "chunk": 150,
+}
+
 DEV_PATH = '{}'
 PROPS["C10"] = {
     "title": "Field paths resolve to exactly the addressed value",
@@ -104,33 +159,17 @@ PROPS["C10"] = {
     "chunk": 400,
 }
 
-
-PROPS["C17"] = {
-    "title": "Order of operands never decides whether and/or is true",
+PROPS["C08"] = {
+    "title": "List quantifiers count the members the author wrote",
     "models": lambda tier: [
-        {"module": "MC_Tri",
-         "constants": {"MaxK": q(tier, 3, 4), "Dev": DEV_CURRENT, "EmitAlts": "TRUE"},
-         "invariants": ["OrderFree", "LangOrderFree", "Emit"],
-         "forms": ["and_chain", "or_chain", "map_group", "seq_group", "all_seq", "of_seq", "klist", "kall", "kof"],
-         "workers": q(tier, 4, 8)},
+        {"module": "MC_Quant", "constants": {"MaxK": q(tier, 3, 5)},
+         "invariants": ["CountLaw", "Emit"],
+         "forms": ["key_plain", "key_all", "key_of", "seq_all", "seq_of", "idl_all", "idl_of"], "workers": 8},
     ],
-    "gens": lambda tier: [{"topic": "perm", "n": q(tier, 600, 12000)}],
-    "rules": ["den", "alt_fails", "match_panic"],
+    "gens": lambda tier: [{"topic": "quant", "n": q(tier, 500, 10000)}],
+    "rules": ["oracle", "den", "alt_fails", "load_outcome", "match_panic"],
     "chunk": 500,
 }
-
-PROPS["C15"] = {
-    "title": "ignore_case build equals default build with every pattern i-prefixed",
-    "needs_ic": True,
-    "models": lambda tier: [
-        {"module": "MC_Ident", "constants": {"MaxLen": q(tier, 3, 4), "Dev": "{}", "IcBuild": "TRUE"},
-         "invariants": ["NoPanic", "WriteRead"], "no_cases": True, "workers": 8},
-    ],
-    "gens": lambda tier: [{"topic": "ic+lang", "n": q(tier, 500, 10000)}, {"topic": "ic+str", "n": q(tier, 300, 6000)}],
-    "rules": ["den", "oracle", "ic_load_differs", "load_panic", "match_panic"],
-    "chunk": 400,
-}
-
 
 # ------------------------------------------------------------------------------------------
 # texts for MANIFEST.json
